@@ -108,8 +108,8 @@ PROPS["C07"] = {
     "timeout": 900,
     "technique": "postcondition + frame contracts on each reset/load function from an arbitrary (fully symbolic, not only invariant-satisfying) pre-state, Kani/CBMC",
     "level_text": "Proof: each reset function's postcondition (documented fields at power-on values, documented frame bit-identical) is discharged from every possible pre-state, so it holds after any history; load = master reset + RAM image + limits.",
-    "level_note": "Trusted: Kani/CBMC, rustc. MISR, UART bytes, DAISR and the non-jumper DASR bits are not named by the statement and left unconstrained. R.load is BOUNDED in the image length (<= 6 symbolic bytes over 3 lines). The 'runs cycle-for-cycle as on a new machine' consequence rests on the edge being a function of the CPU projection: proved as a 2-safety obligation on the real edge in the thorough tier (c07_x_edge_independent_of_board); the induction over edges is argued.",
-    "bounded": ["c07_load: image length <= 6 symbolic bytes over three lines (unwind 10); thorough tier adds c07_x_load_*_clears_stale_ram (empty and one-byte image, unwind 245)"],
+    "level_note": "Trusted: Kani/CBMC, rustc. MISR, UART bytes, DAISR and the non-jumper DASR bits are not named by the statement and left unconstrained. R.load is BOUNDED in the image length (three small shapes incl. the empty image, bytes symbolic). The 'runs cycle-for-cycle as on a new machine' consequence rests on the edge being a function of the CPU projection: proved as a 2-safety obligation on the real edge in the thorough tier (c07_x_edge_independent_of_board); the induction over edges is argued.",
+    "bounded": ["c07_load_*: image shapes (0,0), (3,2), (1,3) bytes over three lines, bytes symbolic (unwind 10); thorough tier adds c07_x_load_*_clears_stale_ram (empty and one-byte image, unwind 245)"],
     "samples": [{"obligation": "C07.R.master.bus-and-board", "text": "master_reset: inputs/timer/outputs/MICR/UCR power-on, board outputs/DAICR/fan/UIO directions power-on, RAM and board inputs bit-identical", "domain": "every field of RawMachine symbolic incl. all f32 bit patterns"}],
     "trusted": [],
     "assumptions": [],
